@@ -20,11 +20,16 @@ EXPLANATION = ("Field identities are proved on the real Stroh and isotropic sour
                "reciprocals, and the coefficient identities 'strain = symmetric gradient of displacement' (chain rule d log eta = d eta / eta), 'stress = C : strain' and 1/r homogeneity are "
                "polynomial identities (normaliser). Isotropic solution (real symbols): on each open region of the plane the branch conditions of theta are decided, then strain = sym grad u "
                "(term differentiator), stress = 2 mu eps + lambda tr(eps) I, div sigma = 0, 1/r homogeneity and the jump of u across the cut x<0 equal to b_e m + b_s xi (arctan axioms). "
-               "Eigen-theory dependent clauses (Burgers jump and equilibrium of the Stroh solution, reality/definiteness of K, covariance, isotropic limit, Miller-index orientation) depend "
-               "on numpy.linalg.eig and are labelled bounded contract checks.")
-ASSUMPTIONS = ["complex log: d log(z) = dz / z (chain rule of the differentiator); log(eta_a), 1/eta_a treated as opaque atoms linked by that rule",
-               "numpy.linalg.eig: nothing assumed; everything depending on the eigen-solution is bounded", "isotropic solver: m, n, xi along the coordinate axes in the symbolic groups (covariance is in the bounded group)"]
-UNCOVERED = ["Stroh Burgers jump / equilibrium / K real symmetric positive definite for arbitrary C (bounded only)", "anisotropic -> isotropic limit (bounded only)"]
+               "Consequences of the eigen-decomposition are proved as certificates: the matrix N built by solve() (block extracted mechanically, numpy.linalg.inv replaced by its "
+               "contract) is the Stroh matrix of (Q,R,T); for every eigenpair of N (contract of numpy.linalg.eig) the Stroh relation [Q + p(R+R^T) + p^2 T]A = 0 is an explicit "
+               "polynomial combination of the hypotheses; the divergence of the stress returned by stress() is, mode by mode, a multiple of that relation (equilibrium); the jump of "
+               "displacement() when log eta_a jumps by +-2 pi i is (sum_a k_a A_a x L_a) b, i.e. b under the closure relation solve() asserts at run time. What numpy.linalg.eig "
+               "actually returns (pair ordering +,-; reality/definiteness of K; covariance; isotropic limit; Miller-index orientation) is a labelled bounded contract check.")
+ASSUMPTIONS = ["complex log: d log(z) = dz / z (chain rule of the differentiator); log(eta_a), 1/eta_a treated as opaque atoms linked by that rule; log eta_a jumps by +-2 pi i across the cut with the sign of Im p_a",
+               "numpy.linalg.eig: only its contract N xi = p xi is used (hypothesis of the certificates); that eigenvalues come in conjugate pairs ordered (+,-) as the code's sign vector assumes is bounded only",
+               "numpy.linalg.inv: contract T Ti = I (hypothesis of the certificates); closure relation sum_a k_a A_a x L_a = I is the solver's own run-time assertion (tolerance 1e-8)",
+               "isotropic solver: m, n, xi along the coordinate axes in the symbolic groups (covariance is in the bounded group)"]
+UNCOVERED = ["ordering of the eigenpairs returned by numpy.linalg.eig, K real symmetric positive definite for arbitrary C (bounded only)", "anisotropic -> isotropic limit (bounded only)"]
 
 STROH = 'atomman/defect/Stroh.py'
 ISO = 'atomman/defect/IsotropicVolterraDislocation.py'
@@ -563,3 +568,151 @@ def solutions(tier, seed):
         fails.append({'obligation': 'isotropic.limit', 'key': 'mu=0.7,lambda=1.3', 'input': 'isotropic', 'detail': 'raised %s: %s' % (type(e).__name__, e)})
     files = {rel: hashlib.sha256(open(os.path.join(REPO, rel), 'rb').read()).hexdigest() for rel in (STROH, ISO, VOLT, SOLVE)}
     return {'family': 'Volterra solutions (%d of the cases refused by the solver: degenerate roots)' % refused, 'evaluations': evals, 'distinct_nontrivial': evals - refused, 'rule': 'see group rule', 'samples': samples, 'failures': fails[:12], 'files': files}
+
+
+# ----------------------------------------------------------------------------
+# Stroh: what follows from the eigen-decomposition -- equilibrium and the Burgers jump -- by machine-checked certificates
+#   hypotheses = the contract of numpy.linalg.eig on the matrix N that the real code builds (N xi_a = p_a xi_a), the contract of numpy.linalg.inv (T Ti = I) and the
+#   closure relation that solve() itself asserts at run time (sum_a k_a A_a (x) L_a = I).  Each conclusion is proved as  conclusion = sum(polynomial * hypothesis)  (ring identity).
+
+import ast as _ast
+from pyvc.extract import extract_range as _extract_range
+
+
+def _assign_to(name):
+    def sel(n):
+        return isinstance(n, _ast.Assign) and len(n.targets) == 1 and isinstance(n.targets[0], _ast.Name) and n.targets[0].id == name
+    return sel
+
+
+class _InvStub(object):
+    """the facade with numpy.linalg.inv replaced by its contract: a fresh symbolic matrix Ti for the argument T (T Ti = I is used as hypothesis through E := T Ti - I)"""
+    def __init__(self, E, rec):
+        outer = self
+        self.rec = rec
+
+        class _LA(object):
+            def __getattr__(self, k):
+                return getattr(snp.linalg, k)
+
+            def inv(self, a):
+                a = snp.asarray(a)
+                Ti = E.reals('Ti', a.shape)
+                rec['T'] = a.copy()
+                rec['Ti'] = Ti
+                return Ti.copy()
+        self.linalg = _LA()
+
+    def __getattr__(self, k):
+        return getattr(snp, k)
+
+
+def _cmat_vec(Mx, v):
+    """real or complex matrix times complex vector"""
+    out = []
+    for i in range(len(Mx)):
+        acc = CSym(0, 0)
+        for j in range(len(v)):
+            acc = acc + CSym.coerce(v[j]) * Mx[i][j]
+        out.append(acc)
+    return out
+
+
+@group('stroh.eigen_consequences', files=[STROH], functions=['Stroh.solve (block: Stroh matrix)', 'Stroh.displacement', 'Stroh.stress'],
+       clause='for any stiffness with the full symmetries, any axes m, n and any Burgers vector: the matrix N built by solve() is the Stroh matrix of (Q, R, T) = (mCm, mCn, nCn); for '
+              'every eigenpair N (A_a, L_a) = p_a (A_a, L_a) (contract of numpy.linalg.eig) with T Ti = I (contract of numpy.linalg.inv) the Stroh relation '
+              '[Q + p_a (R + R^T) + p_a^2 T] A_a = 0 holds (certificate: it is an explicit polynomial combination of the hypotheses); hence the divergence of the stress field '
+              'returned by stress() vanishes mode by mode (elastic equilibrium), and the jump of the displacement returned by displacement() when every log eta_a jumps by '
+              '+-2 pi i with the code\'s alternating sign is (sum_a k_a A_a (x) L_a) b, i.e. the Burgers vector under the closure relation solve() asserts',
+       replay=_replay, timeout_ms=60000)
+def stroh_eigen(E, L):
+    mod, st, m, n, C = _mk_stroh(E, L)
+    E.canary('stroh.eigen.canary', m[0] == n[0])
+    E.side_enabled = False
+    block, info = _extract_range(L, STROH, 'solve', _assign_to('Cijkl'), _assign_to('N'))
+    E.prove('stroh.N.block_found', info['last_line'] > info['first_line'])
+    rec = {}
+    real_np = mod.np
+    mod.np = _InvStub(E, rec)
+    try:
+        out = block(dict(self=st))
+    finally:
+        mod.np = real_np
+    N = out['N']
+    E.prove('stroh.N.shape', N.shape == (6, 6))
+    C4 = full4(C)
+    Q = [[sum(m[j] * C4[j, i, k, l] * m[l] for j in range(3) for l in range(3)) for k in range(3)] for i in range(3)]
+    R = [[sum(m[j] * C4[j, i, k, l] * n[l] for j in range(3) for l in range(3)) for k in range(3)] for i in range(3)]
+    T = [[sum(n[j] * C4[j, i, k, l] * n[l] for j in range(3) for l in range(3)) for k in range(3)] for i in range(3)]
+    Ti = rec['Ti']
+    for i in range(3):
+        for k in range(3):
+            E.prove('stroh.N.inverted_matrix_is_nCn[%d,%d]' % (i, k), rec['T'][i, k] == T[i][k])
+            E.prove('stroh.N.transpose_symmetry[%d,%d]' % (i, k), out['nm'][i, k] == R[k][i])
+            # blocks of the Stroh matrix
+            E.prove('stroh.N.block_B[%d,%d]' % (i, k), N[i, 3 + k] == -Ti[i, k])
+            E.prove('stroh.N.block_A[%d,%d]' % (i, k), N[i, k] == -sum(Ti[i, j] * R[k][j] for j in range(3)))
+            E.prove('stroh.N.block_D[%d,%d]' % (i, k), N[3 + i, 3 + k] == -sum(R[i][j] * Ti[j, k] for j in range(3)))
+            E.prove('stroh.N.block_C[%d,%d]' % (i, k), N[3 + i, k] == Q[i][k] - sum(R[i][j] * Ti[j, l] * R[k][l] for j in range(3) for l in range(3)))
+    p, A, Lv, kk = st._Stroh__p, st._Stroh__A, st._Stroh__L, st._Stroh__k
+    Em = [[sum(T[i][j] * Ti[j, k] for j in range(3)) - (1 if i == k else 0) for k in range(3)] for i in range(3)]       # T Ti - I
+    b = st._VolterraDislocation__burgers
+    # fields with log(eta_a), 1/eta_a as atoms (as in stroh.fields)
+    atoms = _Atoms(E)
+    st.eta = lambda pos_: snp.asarray(_np.array([[_EtaAtom(a, atoms) for a in range(6)]], dtype=object))
+    pos = E.reals('x', (3,))
+    u = st.displacement(pos)
+    sig = st.stress(pos)
+
+    def coef(z, which, a):
+        z = CSym.coerce(z)
+        sub1 = {}
+        for kind in ('LOG', 'INV'):
+            arr = getattr(atoms, kind)
+            for bb in range(6):
+                for part, val in ((arr[bb].re, 1 if (kind == which and bb == a) else 0), (arr[bb].im, 0)):
+                    sub1[part.t] = tm.const(val, tm.R)
+        return CSym(Sym(tm.substitute(z.re.t, sub1)), Sym(tm.substitute(z.im.t, sub1)))
+    updn = [1, -1, 1, -1, 1, -1]
+    two_pi_i = CSym(0, 2) * snp.pi
+    for a in range(6):
+        xi = [A[a, j] for j in range(3)] + [Lv[a, j] for j in range(3)]
+        Nxi = _cmat_vec([[N[i, j] for j in range(6)] for i in range(6)], xi)
+        h = [Nxi[i] - p[a] * xi[i] for i in range(6)]                      # eig contract: every h_i = 0
+        h1, h2 = h[:3], h[3:]
+        Aa = [A[a, j] for j in range(3)]
+        La = [Lv[a, j] for j in range(3)]
+        RtA_L = [sum((CSym.coerce(Aa[k]) * R[k][j] for k in range(3)), CSym(0, 0)) + La[j] for j in range(3)]        # (R^T A + L)_j
+        stroh = []
+        for i in range(3):
+            acc = CSym(0, 0)
+            for k in range(3):
+                acc = acc + CSym.coerce(Aa[k]) * Q[i][k] + p[a] * (CSym.coerce(Aa[k]) * (R[i][k] + R[k][i])) + p[a] * p[a] * (CSym.coerce(Aa[k]) * T[i][k])
+            stroh.append(acc)
+        for i in range(3):
+            cert = h2[i]
+            for j in range(3):
+                cert = cert - (CSym.coerce(h1[j]) * R[i][j] + p[a] * (CSym.coerce(h1[j]) * T[i][j]))
+                cert = cert - p[a] * (RtA_L[j] * Em[i][j])
+            _cprove(E, 'stroh.relation.certificate[mode%d][%d]' % (a, i), stroh[i], cert)
+        # equilibrium: coefficient of 1/eta_a^2 in the divergence of the stress  (d(1/eta)/dx_j = -(m_j + p n_j)/eta^2)
+        deta = [p[a] * n[j] + m[j] for j in range(3)]
+        Lb = sum((CSym.coerce(La[j]) * b[j] for j in range(3)), CSym(0, 0))
+        kLb = kk[a] * updn[a] * Lb
+        for i in range(3):
+            div = CSym(0, 0)
+            for j in range(3):
+                div = div - coef(sig[i, j], 'INV', a) * deta[j]
+            # div * (2 pi i) = - kLb * [Stroh matrix . A]_i
+            _cprove(E, 'stroh.equilibrium.divergence_is_multiple_of_relation[mode%d][%d]' % (a, i), div * two_pi_i, CSym(0, 0) - kLb * stroh[i])
+    # Burgers jump: sum_a (updn_a 2 pi i) * coefficient of log eta_a in u_i  =  sum_j M_ij b_j ,  M = sum_a k_a A_a (x) L_a
+    M = [[sum((kk[a] * A[a, i] * Lv[a, j] for a in range(6)), CSym(0, 0)) for j in range(3)] for i in range(3)]
+    for i in range(3):
+        jump = CSym(0, 0)
+        for a in range(6):
+            jump = jump + coef(u[i], 'LOG', a) * two_pi_i * updn[a]
+        Mb = sum((M[i][j] * b[j] for j in range(3)), CSym(0, 0))
+        _cprove(E, 'stroh.burgers_jump.is_closure_matrix_times_b[%d]' % i, jump, Mb)
+        # under the closure relation asserted by solve():  M = I  =>  jump_i = b_i   (certificate: jump_i - b_i = sum_j (M_ij - delta_ij) b_j)
+        resid = sum(((M[i][j] - (1 if i == j else 0)) * b[j] for j in range(3)), CSym(0, 0))
+        _cprove(E, 'stroh.burgers_jump.minus_b_is_combination_of_closure_defect[%d]' % i, jump - b[i], resid)
